@@ -396,7 +396,7 @@ macro_rules! conv {
     };
 }
 
-// @verif prop=C16 tier=quick fl=f1 feat=map4 role=convert/list-to-map t=1200 mem=12
+// @verif prop=C16 tier=thorough fl=f1 feat=map4 role=convert/list-to-map t=3600 mem=30
 #[cfg_attr(kani, kani::proof)]
 #[cfg_attr(kani, kani::unwind(10))]
 pub fn c16_list_to_map_n3() {
@@ -417,21 +417,21 @@ pub fn c16_list_to_edge_list_n3() {
     convert::<AdjacencyList, EdgeList, 3>();
 }
 
-// @verif prop=C16 tier=quick fl=f1 feat=map4 role=convert/map-to-list t=1200 mem=12
+// @verif prop=C16 tier=thorough fl=f1 feat=map4 role=convert/map-to-list t=3600 mem=30
 #[cfg_attr(kani, kani::proof)]
 #[cfg_attr(kani, kani::unwind(10))]
 pub fn c16_map_to_list_n3() {
     convert::<AdjacencyMap, AdjacencyList, 3>();
 }
 
-// @verif prop=C16 tier=quick fl=f1 feat=map4 role=convert/map-to-matrix t=1200 mem=12
+// @verif prop=C16 tier=thorough fl=f1 feat=map4 role=convert/map-to-matrix t=3600 mem=30
 #[cfg_attr(kani, kani::proof)]
 #[cfg_attr(kani, kani::unwind(10))]
 pub fn c16_map_to_matrix_n3() {
     convert::<AdjacencyMap, AdjacencyMatrix, 3>();
 }
 
-// @verif prop=C16 tier=quick fl=f1 feat=map4 role=convert/map-to-edge-list t=1200 mem=12
+// @verif prop=C16 tier=thorough fl=f1 feat=map4 role=convert/map-to-edge-list t=3600 mem=30
 #[cfg_attr(kani, kani::proof)]
 #[cfg_attr(kani, kani::unwind(10))]
 pub fn c16_map_to_edge_list_n3() {
@@ -445,7 +445,7 @@ pub fn c16_matrix_to_list_n3() {
     convert::<AdjacencyMatrix, AdjacencyList, 3>();
 }
 
-// @verif prop=C16 tier=quick fl=f1 feat=map4 role=convert/matrix-to-map t=1200 mem=12
+// @verif prop=C16 tier=thorough fl=f1 feat=map4 role=convert/matrix-to-map t=3600 mem=30
 #[cfg_attr(kani, kani::proof)]
 #[cfg_attr(kani, kani::unwind(10))]
 pub fn c16_matrix_to_map_n3() {
@@ -466,7 +466,7 @@ pub fn c16_edge_list_to_list_n3() {
     convert::<EdgeList, AdjacencyList, 3>();
 }
 
-// @verif prop=C16 tier=quick fl=f1 feat=map4 role=convert/edge-list-to-map t=1200 mem=12
+// @verif prop=C16 tier=thorough fl=f1 feat=map4 role=convert/edge-list-to-map t=3600 mem=30
 #[cfg_attr(kani, kani::proof)]
 #[cfg_attr(kani, kani::unwind(10))]
 pub fn c16_edge_list_to_map_n3() {
@@ -545,14 +545,14 @@ pub fn c16_from_rows_map_rejects_n3() {
     from_rows::<3, 4>(1, false);
 }
 
-// @verif prop=C16 tier=quick fl=f1 role=from-rows/weighted t=1200 mem=12
+// @verif prop=C16 tier=quick fl=f1 role=from-rows/weighted t=1500 mem=24
 #[cfg_attr(kani, kani::proof)]
 #[cfg_attr(kani, kani::unwind(10))]
 pub fn c16_from_weight_rows_n3() {
     from_weight_rows::<3, 4>(true);
 }
 
-// @verif prop=C16 tier=quick fl=f1 role=from-rows-rejects/weighted t=1200 mem=12 expect=panic
+// @verif prop=C16 tier=quick fl=f1 role=from-rows-rejects/weighted t=1500 mem=24 expect=panic
 #[cfg_attr(kani, kani::proof)]
 #[cfg_attr(kani, kani::unwind(10))]
 pub fn c16_from_weight_rows_rejects_n3() {
@@ -560,9 +560,9 @@ pub fn c16_from_weight_rows_rejects_n3() {
 }
 
 // AdjacencyMatrix::from(1..=3 arcs with ids < 4, duplicates allowed): order = largest id + 1, exactly those arcs.
-// @verif prop=C16 tier=quick fl=f0 role=from-arcs/matrix t=1200 mem=12
+// @verif prop=C16 tier=quick fl=f0 role=from-arcs/matrix t=1500 mem=24
 #[cfg_attr(kani, kani::proof)]
-#[cfg_attr(kani, kani::unwind(8))]
+#[cfg_attr(kani, kani::unwind(10))]
 pub fn c16_from_arcs_matrix_k3() {
     from_arcs::<3, 4>(0);
 }
@@ -577,7 +577,7 @@ pub fn c16_from_arcs_edge_list_k3() {
 
 // @verif prop=C16 tier=quick fl=f0 role=from-arcs-rejects/matrix t=1200 mem=12 expect=panic
 #[cfg_attr(kani, kani::proof)]
-#[cfg_attr(kani, kani::unwind(8))]
+#[cfg_attr(kani, kani::unwind(10))]
 pub fn c16_from_arcs_matrix_rejects_k3() {
     from_arcs_rejects::<3, 4>(0);
 }
@@ -587,4 +587,46 @@ pub fn c16_from_arcs_matrix_rejects_k3() {
 #[cfg_attr(kani, kani::unwind(8))]
 pub fn c16_from_arcs_edge_list_rejects_k3() {
     from_arcs_rejects::<3, 4>(1);
+}
+
+// @verif prop=C16 tier=quick fl=f1 feat=map4 role=convert/list-to-map t=1200 mem=16
+#[cfg_attr(kani, kani::proof)]
+#[cfg_attr(kani, kani::unwind(8))]
+pub fn c16_list_to_map_n2() {
+    convert::<AdjacencyList, AdjacencyMap, 2>();
+}
+
+// @verif prop=C16 tier=quick fl=f1 feat=map4 role=convert/map-to-list t=1200 mem=16
+#[cfg_attr(kani, kani::proof)]
+#[cfg_attr(kani, kani::unwind(8))]
+pub fn c16_map_to_list_n2() {
+    convert::<AdjacencyMap, AdjacencyList, 2>();
+}
+
+// @verif prop=C16 tier=quick fl=f1 feat=map4 role=convert/map-to-matrix t=1200 mem=16
+#[cfg_attr(kani, kani::proof)]
+#[cfg_attr(kani, kani::unwind(8))]
+pub fn c16_map_to_matrix_n2() {
+    convert::<AdjacencyMap, AdjacencyMatrix, 2>();
+}
+
+// @verif prop=C16 tier=quick fl=f1 feat=map4 role=convert/matrix-to-map t=1200 mem=16
+#[cfg_attr(kani, kani::proof)]
+#[cfg_attr(kani, kani::unwind(8))]
+pub fn c16_matrix_to_map_n2() {
+    convert::<AdjacencyMatrix, AdjacencyMap, 2>();
+}
+
+// @verif prop=C16 tier=quick fl=f1 feat=map4 role=convert/map-to-edge-list t=1200 mem=16
+#[cfg_attr(kani, kani::proof)]
+#[cfg_attr(kani, kani::unwind(8))]
+pub fn c16_map_to_edge_list_n2() {
+    convert::<AdjacencyMap, EdgeList, 2>();
+}
+
+// @verif prop=C16 tier=quick fl=f1 feat=map4 role=convert/edge-list-to-map t=1200 mem=16
+#[cfg_attr(kani, kani::proof)]
+#[cfg_attr(kani, kani::unwind(8))]
+pub fn c16_edge_list_to_map_n2() {
+    convert::<EdgeList, AdjacencyMap, 2>();
 }
